@@ -110,6 +110,12 @@ Theorem C19_iteration_is_birth_order : forall ops : list (@op V),
   StronglySorted lt (map (snd st) (map fst (fst st))).
 Proof. exact (birth_sorted zero). Qed.
 
+(* ... and a birth stamp is what its name says: the position in the history of a Set of that key *)
+Theorem C19_births_are_sets : forall ops : list (@op V),
+  let st := t_run zero 0 ([], b0) ops in
+  forall x, In x (map fst (fst st)) -> exists v, nth_error ops (snd st x) = Some (OSet x v).
+Proof. exact (births_are_sets zero). Qed.
+
 Theorem C19_any_interleaving : forall (threads : list (list (@op V))) h, interleaving threads h ->
   snd (run zero empty h) = snd (s_run zero [] h) /\
   abs zero (fst (run zero empty h)) = fst (s_run zero [] h) /\
@@ -159,5 +165,6 @@ Print Assumptions C19_order_stable_delete.
 Print Assumptions C19_order_stable_filter.
 Print Assumptions C19_before_strict.
 Print Assumptions C19_iteration_is_birth_order.
+Print Assumptions C19_births_are_sets.
 Print Assumptions C19_lock_discipline.
 Print Assumptions C19_api_complete.
